@@ -1,11 +1,14 @@
 /-
   C03 — Translation never silently drops or invents nodes, edges or references.
   Property theorems only (serializer models; decoding the written bytes independently of
-  protobom's readers is the Go-side oracle of the streams `spdx` and `cdx`).
+  protobom's readers is the Go-side oracle of the streams `spdx` and `cdx`). CycloneDX: every node
+  is emitted, on forests exactly once (`cdx_forest_each_node_exactly_once`), containment is nesting,
+  dependency entries name known nodes only (`cdx_no_dangling_dependency`).
 -/
 import Protobom.Proofs.Spdx
 import Protobom.Proofs.Cdx
 import Protobom.Proofs.Nest
+import Protobom.Proofs.NestNodes
 
 namespace Protobom.C03
 open Protobom Gen
@@ -131,5 +134,36 @@ theorem cdx_containment_is_nesting (children : String → List String) (c0 : Str
     (hlt : ∀ id t, t ∈ children id → ht t < ht id) (hk : ∀ x, (c0 x).kids = []) (x : String) :
     (Cdx.T children c0 ht x).kids = (children x).map (Cdx.T children c0 ht) := by
   rw [Cdx.T_unfold children c0 ht hlt x, Cdx.kids_withKids, hk x, List.nil_append]
+
+end Protobom.C03
+
+namespace Protobom.C03
+open Protobom Gen
+
+/-! ### CycloneDX: exactly once on forests, and no dangling dependency -/
+
+/-- **every node exactly once when containment is a forest**: the references of everything the
+    CycloneDX serializer emits for a one-rooted containment forest — the metadata component and the
+    component forest with all nested components — are the identifiers of the document, each once -/
+theorem cdx_forest_each_node_exactly_once (d : Document) (md : Metadata) (nl : NodeList) (root : String) (rootNode : Node)
+    (lcs : List Cdx.Lifecycle) (p1 : Cdx.Pass1) (ht : String → Nat)
+    (hmd : d.metadata = some md) (hnl : d.nodeList = some nl) (hroots : nl.roots = [root])
+    (hroot : nl.getNodeByID root = some rootNode) (hrid : rootNode.id = root)
+    (hlc : Cdx.serCDX.mapLifecycles md.docTypes = .ok lcs)
+    (hp1 : Cdx.pass1 (fun id => (Cdx.dictOf nl.nodes).any (·.1 = id)) nl.edges = .ok p1)
+    (F : Cdx.Forest (Cdx.childrenOf p1) ht (fun x => ((Cdx.dictOf nl.nodes).lookup x).isSome = true) [root])
+    (hht : ∀ x, ht x < (Cdx.dictOf nl.nodes).length + 2)
+    (hids : ∀ x, ((Cdx.dictOf nl.nodes).lookup x).isSome = true → Cdx.isAutoRef x = false) :
+    ∃ (b : Cdx.Bom) (rootC : Cdx.Component), Cdx.serCDX d = .ok b ∧ b.metaComponent = some rootC ∧
+      (rootC.refs ++ Cdx.refsL b.components).Nodup ∧
+      ∀ x, x ∈ rootC.refs ++ Cdx.refsL b.components ↔ x ∈ nl.ids :=
+  Cdx.serCDX_forest_refs d md nl root rootNode lcs p1 ht hmd hnl hroots hroot hrid hlc hp1 F hht hids
+
+/-- **no reference to an element that was not emitted**: every dependency entry the serializer
+    writes (whenever it succeeds, for any document) names known nodes only — as its `ref` and in
+    its `dependsOn` list -/
+theorem cdx_no_dangling_dependency (known : String → Bool) (edges : List Edge) (p1 : Cdx.Pass1)
+    (h : Cdx.pass1 known edges = .ok p1) : ∀ st ∈ p1.deps, known st.1 = true ∧ ∀ t ∈ st.2, known t = true :=
+  Cdx.pass1_deps_known known edges p1 h
 
 end Protobom.C03
